@@ -439,6 +439,15 @@ pub fn generate(property: &str, tier: &str, seed: u64, index: u64) -> Plan {
             p.injects.clear();
             p
         }
+        "C17" if index % 11 == 10 => {
+            // handshakes under loss, duplication and round trips far above the retry interval: when a
+            // session turns Running must not depend on hash order or on the handshake numbers
+            let mut p = c12(property, seed, 9);
+            p.scenario = format!("c17-{}", p.scenario);
+            p.cfg.clock_bump_us = 0;
+            p.injects.clear();
+            p
+        }
         "C17" if index % 7 == 4 => {
             // a really diverging game with detection on: several mismatching reports can be pending
             // at once, and the order in which they are reported must not depend on hash order either
@@ -932,10 +941,14 @@ pub fn c07(property: &str, seed: u64) -> Plan {
         p.scenario = "c07-disconnect-player".into();
     } else {
         p.nodes[1].tick.stop_us = Some(t_kill);
-        // some of its last packets never arrive
+        // some of its last packets never arrive - or arrive as stragglers, after the survivor has
+        // already cut the player off (its endpoint lingers for 5 s): they must change nothing
         if c.chance(&[12], 500_000) {
             let back = c.range(&[13], 0, ms(150));
-            p.windows.push(Window { from: 1, to: 0, start_us: t_kill.saturating_sub(back), end_us: t_kill + ms(10), kinds: ALL_KINDS, action: WinAction::Drop });
+            // (only input packets straggle: a held-up handshake reply would let the survivor finish a
+            // handshake with a peer that died seconds ago, which is a different story)
+            let (kinds, action) = if c.chance(&[22], 400_000) { (1u16 << K_INPUT, WinAction::Delay(back + ms(p.cfg.timeout_ms + c.range(&[23], 300, 2500)))) } else { (ALL_KINDS, WinAction::Drop) };
+            p.windows.push(Window { from: 1, to: 0, start_us: t_kill.saturating_sub(back), end_us: t_kill + ms(10), kinds, action });
         }
         // the survivor may be stalled (paused) around the death
         if c.chance(&[14], 200_000) {
@@ -945,6 +958,12 @@ pub fn c07(property: &str, seed: u64) -> Plan {
     }
     // the survivor's timers start at its last poll that received something: after a pause that is the pause's end
     let pause_end = p.nodes[0].tick.pauses.iter().map(|x| x.1).max().unwrap_or(0);
+    // stragglers are meant to arrive after the cut-off: a paused survivor's timers only start at the pause's end
+    for w in p.windows.iter_mut() {
+        if let WinAction::Delay(d) = &mut w.action {
+            *d += pause_end.saturating_sub(t_kill) + max_lat;
+        }
+    }
     let heal = t_kill.max(pause_end) + ms(p.cfg.timeout_ms) + max_lat + ms(700);
     p.horizon_us = heal + ms(2000);
     p.oracle.lifecycle_timing = true;
@@ -1018,9 +1037,12 @@ pub fn c12(property: &str, seed: u64, index: u64) -> Plan {
                 let target = if c.chance(&[7, j], 500_000) { p.cfg.notify_ms } else { p.cfg.timeout_ms };
                 let d = ms((target as i64 + c.range(&[8, j], 0, 400) as i64 - 200).max(20) as u64);
                 let both = c.chance(&[9, j], 600_000);
-                p.windows.push(Window { from: 1, to: 0, start_us: t, end_us: t + d, kinds: ALL_KINDS, action: WinAction::Drop });
+                // with a spectator attached, half of the silences fall on the host -> spectator link:
+                // a spectator session has the same two timers
+                let (a, b) = if p.nodes.len() == 3 && c.chance(&[11, j], 500_000) { (0, 2) } else { (1, 0) };
+                p.windows.push(Window { from: a, to: b, start_us: t, end_us: t + d, kinds: ALL_KINDS, action: WinAction::Drop });
                 if both {
-                    p.windows.push(Window { from: 0, to: 1, start_us: t, end_us: t + d, kinds: ALL_KINDS, action: WinAction::Drop });
+                    p.windows.push(Window { from: b, to: a, start_us: t, end_us: t + d, kinds: ALL_KINDS, action: WinAction::Drop });
                 }
                 t += d + ms(c.range(&[10, j], 300, 1500));
             }
@@ -1065,8 +1087,10 @@ pub fn c12(property: &str, seed: u64, index: u64) -> Plan {
                 n.drain = !c.chance(&[14, i as u64], 200_000);
             }
             for l in p.links.iter_mut() {
-                l.base_us = ms(*c.pick(&[15, l.from as u64, l.to as u64], &[0u64, 5, 20, 80, 150, 300]));
-                l.jitter_us = l.base_us;
+                // up to 1.6 s one way: a handshake round trip well above the 200 ms retry interval
+                // leaves many requests outstanding whose replies all still arrive
+                l.base_us = ms(*c.pick(&[15, l.from as u64, l.to as u64], &[0u64, 5, 20, 80, 150, 300, 300, 700, 1200, 1600]));
+                l.jitter_us = l.base_us.min(ms(300));
                 l.loss_ppm = *c.pick(&[16, l.from as u64, l.to as u64], &[0u32, 50_000, 200_000, 400_000]);
                 l.dup_ppm = *c.pick(&[17, l.from as u64, l.to as u64], &[0u32, 50_000, 200_000]);
             }
@@ -1082,7 +1106,8 @@ pub fn c12(property: &str, seed: u64, index: u64) -> Plan {
                     payload: Payload::Msg { magic: *c.pick(&[23, j], &[MagicSel::Real, MagicSel::Wrong, MagicSel::Zero]), body: MBody::SyncReply { random_reply: c.u(&[24, j]) as u32 } },
                 });
             }
-            p.horizon_us = ms(c.range(&[25], 3000, 9000));
+            let slowest = p.links.iter().map(|l| l.base_us + l.jitter_us).max().unwrap_or(0);
+            p.horizon_us = ms(c.range(&[25], 3000, 9000)) + 12 * slowest;
             p
         }
     }
@@ -1384,18 +1409,6 @@ pub fn c10(property: &str, seed: u64) -> Plan {
         p.windows.push(Window { from: v, to: s, start_us: t_kill.saturating_sub(back), end_us: t_kill + ms(50), kinds: ALL_KINDS, action: WinAction::Drop });
     }
     let survivors: Vec<usize> = peers.iter().copied().filter(|&s| s != v).collect();
-    // stragglers: the dying peer's last packets towards one survivor are not lost but held up in
-    // the network for longer than the disconnect timeout, and arrive when that survivor has already
-    // cut the peer off (its endpoint lingers for 5 s before it shuts down)
-    if c.chance(&[13], 300_000) {
-        let s = survivors[c.range(&[14], 0, survivors.len() as u64 - 1) as usize];
-        let hold = ms(p.cfg.timeout_ms + c.range(&[15], 100, 2500));
-        for w in p.windows.iter_mut().filter(|w| w.from == v && w.to == s) {
-            w.action = WinAction::Delay(hold);
-            w.start_us = w.start_us.min(t_kill.saturating_sub(ms(c.range(&[16], 20, 200))));
-        }
-        p.scenario = "c10+stragglers".into();
-    }
     // survivors may notice the death at different instants for other reasons than a split: their
     // own timeouts differ, or a short loss burst between two survivors (they stay connected: the
     // burst is far shorter than any timeout) delays the gossip
@@ -1406,6 +1419,19 @@ pub fn c10(property: &str, seed: u64) -> Plan {
         p.nodes[s].timeout_ms = Some(t);
         p.nodes[s].notify_ms = Some((t / 3).max(100));
         longest_timeout = longest_timeout.max(t);
+    }
+    // stragglers: the dying peer's last packets towards one survivor are not lost but held up in
+    // the network for longer than the disconnect timeout, and arrive when that survivor has already
+    // cut the peer off (its endpoint lingers for 5 s before it shuts down)
+    if c.chance(&[13], 300_000) {
+        let s = survivors[c.range(&[14], 0, survivors.len() as u64 - 1) as usize];
+        // (held from the moment of sending, which may be up to 350 ms before the death)
+        let hold = ms(p.nodes[s].timeout_ms.unwrap_or(p.cfg.timeout_ms) + c.range(&[15], 500, 2500));
+        for w in p.windows.iter_mut().filter(|w| w.from == v && w.to == s) {
+            w.action = WinAction::Delay(hold);
+            w.start_us = w.start_us.min(t_kill.saturating_sub(ms(c.range(&[16], 20, 200))));
+        }
+        p.scenario = "c10+stragglers".into();
     }
     if c.chance(&[9], 400_000) && survivors.len() >= 2 {
         let a = survivors[c.range(&[10], 0, survivors.len() as u64 - 1) as usize];
